@@ -217,7 +217,8 @@ impl Subject for C10 {
     }
     fn enabled(&self) -> Vec<Op> {
         let mut v = vec![];
-        for s in [vec![0], vec![], vec![0, 1], vec![1, 2], vec![0, 3], vec![3, 4], vec![0, 5], vec![0, 1, 2], vec![6]] {
+        // ([3, 1, 2]: an invalid rule standing BEFORE valid ones in the list given)
+        for s in [vec![0], vec![], vec![0, 1], vec![1, 2], vec![0, 3], vec![3, 4], vec![0, 5], vec![0, 1, 2], vec![6], vec![3, 1, 2]] {
             v.push(Op::LoadAll(s));
         }
         for k in [1, 0, 2, 3, 4, 5, 6] {
@@ -381,7 +382,7 @@ pub fn run(o: &Opts, stats: &mut Stats) -> Option<usize> {
     let thorough = o.thorough;
     let mut expanded = vec![];
     for c in &cfgs {
-        for first in 0..28usize {
+        for first in 0..29usize {
             expanded.push(Sharded { fam: c.fam, first });
         }
     }
